@@ -1,6 +1,7 @@
 package verifinproc
 
 import (
+	"encoding/json"
 	"fmt"
 	"os"
 	"path/filepath"
@@ -104,7 +105,9 @@ func TestC18Tables(t *testing.T) {
 		col.ClassN("generated_states", states)
 		col.ClassN("generated_classes", classes)
 		if msg != "" {
-			t.Fatalf("grammar:\n%s\ngenerated transition table: %s", gm.Source(), msg)
+			m := fmt.Sprintf("grammar:\n%s\ngenerated transition table: %s", gm.Source(), msg)
+			recordGrammarViolation(col, "C18", "tables", gm.Source(), m)
+			t.Fatalf("%s", m)
 		}
 		if classes >= 4 {
 			col.NonTrivial(ev.Hash(gm.Source()), func() any {
@@ -112,4 +115,13 @@ func TestC18Tables(t *testing.T) {
 			})
 		}
 	}
+}
+
+// recordGrammarViolation writes a replay holding the grammar text and reports
+// the violation through the collector (the driver needs both).
+func recordGrammarViolation(col *ev.Collector, prop, kind, grammar, msg string) {
+	rec := &ev.Recorder{Dir: os.Getenv("VERIF_REPLAY_OUT"), Prop: prop, Engine: "inproc", Seed: os.Getenv("VERIF_SEED")}
+	cb, _ := json.Marshal(map[string]string{"kind": kind, "grammar": grammar})
+	rec.Record(cb, msg)
+	rec.Flush(col)
 }
